@@ -172,11 +172,11 @@ func queueProps(r *Rng, o CfgOpts, leaf bool) map[string]string {
 		p["application.sort.priority"] = []string{"enabled", "disabled"}[r.Intn(2)]
 	}
 	if o.Priorities {
-		if r.Chance(300) {
+		if r.Chance(250) {
 			p["priority.offset"] = strconv.Itoa(r.Range(-3, 3))
 		}
-		if r.Chance(200) {
-			p["priority.policy"] = []string{"default", "fence"}[r.Intn(2)]
+		if r.Chance(300) {
+			p["priority.policy"] = []string{"default", "fence", "fence"}[r.Intn(3)]
 		}
 	}
 	if o.Preemption {
